@@ -36,6 +36,13 @@ class MergeFlow(Engine):
         func, n, file, line = self.attrib(st, node)
         self.sites.setdefault(kind, set()).add((func, construct or (norm(n) if n is not None else '')))
 
+    def on_enter(self, fi, st, node):
+        if fi.name == 'merge' and fi.cls is not None and fi.cls.qualname in self.merge_family:
+            st.mon['merge_entered'] = True
+        sup = getattr(super(), 'on_enter', None)
+        if sup is not None:
+            sup(fi, st, node)
+
     def in_merge(self, st: State) -> bool:
         return any(f.func is not None and f.func.name == 'merge' and f.func.cls is not None for f in st.frames)
 
@@ -285,6 +292,18 @@ class MergeFlow(Engine):
         self.mark_mutation(st, node, 'insert', parent)
         self.bump(st, node_, +1)
         self.mark_inserted(st, node_)
+        self.check_story_body_gone(st, node, parent, node_)
+
+    def check_story_body_gone(self, st, node, parent, node_):
+        """SPLICE: the story handed to the running order by a roStorySend no longer has a storyBody child"""
+        if self.role[0] != 'SEND' or self.owner(parent, st) != 'RO' or not (isinstance(node_, Ref) and node_.kind == 'elem'):
+            return
+        for sym, e in st.heap.items():
+            if isinstance(e, ElemE) and e.parent == node_.sym and e.tag == 'storyBody' and e.attached is True:
+                self.find_('SPLICE', st, node, f'insert({self.describe(node_, st)}) still holding <storyBody>',
+                           'on this path the converted story reaches the running order with its <storyBody> wrapper still in place '
+                           '(e.g. an empty storyBody): the story does not have the element layout the other messages produce')
+                return
 
     def on_append(self, st, node, parent, node_):
         self.count('append', st, node)
@@ -725,6 +744,11 @@ class MergeFlow(Engine):
                 self.findings.setdefault(fd.key, fd)
             return
         # normal return
+        if not s.mon.get('merge_entered'):
+            fd = Finding('ALWAYS-DISPATCH', 'RunningOrder.__add__', 'return without dispatching to merge()',
+                         'adding a message to a running order that is not completed returns without handing it to its merge(): the message is dropped silently',
+                         '?', 0, self.entry, self.witness(s))
+            self.findings.setdefault(fd.key, fd)
         if not (isinstance(v, Ref) and v == ro):
             self.find_at_merge('RETURNS-RO', f'return {self.describe(v, s)}', 'merge must return the running order it was given')
         for sym, (func, cons) in (s.mon.get('sym:hits') or {}).items():
